@@ -54,6 +54,35 @@ def _ms(t):
     return int(round(t * 1000))
 
 
+def stray_witness(stray, stray_at, reply_at):
+    """LocatorQueue.tla on the real GeckoAsyncLocator: one spa answers every broadcast after `reply_at`; a single
+    datagram that is not a hello reaches the locator's endpoint at `stray_at`.  -> what the run listed and when it
+    returned.  (Outside C15's quantifier, which ranges over discovery replies: evidence, not a verdict.)"""
+    from geckolib.async_locator import GeckoAsyncLocator
+    from geckolib.async_tasks import AsyncTasks
+    resp = Responder("s1", b"SPA00:01:02:03:04:05", "one", ("10.0.1.1", 10022), lambda n: [reply_at] if n == 0 else [0.05])
+    net = Network([resp], latency=0.0)
+    with World(net, rank="stable") as w:
+        loop = w.loop
+        state = {}
+
+        def on_endpoint(tr, proto):
+            state["t0"] = loop.time()
+            if stray is not None:
+                net.inject(tr, stray, ("10.0.1.9", 10022), delay=stray_at)
+        loop.on_endpoint = on_endpoint
+
+        async def handler(event, **kwargs):
+            pass
+
+        async def main():
+            loc = GeckoAsyncLocator(AsyncTasks(), handler)
+            await loc.discover()
+            return loop.time() - state["t0"], [d.identifier.decode() if isinstance(d.identifier, bytes) else str(d.identifier) for d in (loc.spas or [])]
+        t, spas = w.run(main())
+    return {"listed": spas, "returned_after_ms": _ms(t)}
+
+
 def scenario(rng, spec):
     """spec: dict(responders=[(token, name, plan)], filter, hd, rank)"""
     from geckolib.async_locator import GeckoAsyncLocator
@@ -195,6 +224,18 @@ def run(ctx):
     ev.add_tlc("the same configuration against the stated property OnlyRequested (refuted: known finding D20)", r)
     if "OnlyRequested" not in r.violated:
         raise env.MachineryError("blocking-locator model unexpectedly satisfies OnlyRequested")
+    # ---- growth: the locator's queue has a single consumer (LocatorQueue.tla) ---------------------------
+    rq = tlc.model_check("LocatorQueue", "LocatorQueue_conn.cfg", workers=2, timeout=300, tag="LQ-conn", coverage=False)
+    ctx.tlc_design("LocatorQueue, a connection's arrangement (Unhandled consumer): no reply starves behind a stray datagram", rq)
+    rq2 = tlc.model_check("LocatorQueue", "LocatorQueue_loc.cfg", workers=2, timeout=300, tag="LQ-loc", coverage=False)
+    ev.add_tlc("witness (refuted on purpose): the locator's arrangement (hello consumer only) starves replies behind a stray datagram", rq2)
+    if "NoStarvation" not in rq2.violated:
+        raise env.MachineryError("LocatorQueue witness not reached")
+    ev.cov["stray_datagram_witness"] = {
+        "no stray datagram": stray_witness(None, 0, 0.3),
+        "stray <PACKT> before the first reply": stray_witness(b"<PACKT><SRCCN>SPA</SRCCN><DESCN>IOS</DESCN><DATAS>APING</DATAS></PACKT>", 0.1, 0.3),
+        "stray datagram after the first reply was consumed": stray_witness(b"junk", 1.0, 0.3),
+    }
     logs = []
     n_sc = 120 if ctx.quick else 3000
     tokens = ["s1", "s2", "s3", "s4", "s5", "s6"]
